@@ -1,6 +1,6 @@
 (* C16 — property theorems only. *)
 From Coq Require Import List.
-From IV Require Import C16.Defs C16.Proofs.
+From IV Require Import C16.Defs C16.Proofs C16.Termination.
 Import ListNotations.
 
 (* Whatever the dependency graph (cyclic or not): when the ordering loop finishes, every library that
@@ -29,3 +29,9 @@ Theorem c16_cycle_search_sound : forall fuel g path r g', find_cycle fuel g path
   (path <> [] -> is_path g path -> forall c, r = Some c -> is_cycle g c).
 Proof. exact find_cycle_ok. Qed.
 Print Assumptions c16_cycle_search_sound.
+
+(* The ordering loop terminates on every dependency graph held in a std::map (keys ascending), cyclic or not, with the fuel run_order supplies:
+   each turn lists a library, removes an edge of a reported cycle, or creates the entry of a library that was only named as a dependency. *)
+Theorem c16_terminates : forall g, ascending (gkeys g) -> run_order g <> None.
+Proof. exact run_order_total. Qed.
+Print Assumptions c16_terminates.
